@@ -451,6 +451,19 @@ class Cwd:
         os.chdir(self.old)
 
 
+class GoneCwd(Cwd):
+    """A working directory that is removed once the process is in it (a
+    daemon whose start directory a deployment replaced): everything named
+    absolutely is reached exactly as before."""
+
+    def __enter__(self):
+        Cwd.__enter__(self)
+        os.rmdir(self.d)
+
+
+ABSOLUTE_ENTRIES = ["abs", "url", "url1", "fobj-abs"]
+
+
 class Monitor:
     """Wrapper on BaseLoader.createResource recording every resource URL."""
 
@@ -664,9 +677,15 @@ def run_layout(ctx, ZConfig, model, tag):
     exp_sch = lay.expected_schema()
     case = {"op": "layout", "model": model}
     with Monitor(res) as mon:
-        for cwdkind in model["cwds"]:
-            cwd = lay.cwd(cwdkind)
-            with Cwd(cwd):
+        for cwdkind in list(model["cwds"]) + ["gone"]:
+            if cwdkind == "gone":
+                import tempfile
+                cwd = tempfile.mkdtemp(dir=os.path.realpath(ctx.tmp),
+                                       prefix="gone")
+                res.count("cwd_removed")
+            else:
+                cwd = lay.cwd(cwdkind)
+            with (GoneCwd if cwdkind == "gone" else Cwd)(cwd):
                 ref_schema = ref_digest = None
                 for what, path, files in (
                         ("schema", lay.sch_paths[0], lay.sch_paths),
@@ -675,7 +694,8 @@ def run_layout(ctx, ZConfig, model, tag):
                         res.count("config_loads_skipped")
                         continue
                     feat = name_features(os.path.basename(path))
-                    for entry in ENTRIES:
+                    for entry in (ABSOLUTE_ENTRIES if cwdkind == "gone"
+                                  else ENTRIES):
                         sp = top_spelling(lay, entry, path, cwd)
                         del mon.events[:]
                         res.evaluations += 1
